@@ -204,7 +204,8 @@ class Ctx:
 
     def match_known(self, clause: str, case, msg: str) -> Optional[dict]:
         for rec in self.known:
-            if rec.get("clause") not in (None, clause):
+            cl = rec.get("clauses") or ([rec["clause"]] if rec.get("clause") else None)
+            if cl is not None and clause not in cl:
                 continue
             fn = self.known_match.get(rec["id"])
             try:
@@ -304,9 +305,10 @@ class Ctx:
         (the finding is stale, which is not an alarm)."""
         for rec in self.known:
             w = rec.get("witness")
-            if w is None or rec.get("clause") not in _CHECKERS:
+            wc = rec.get("witness_clause") or rec.get("clause")
+            if w is None or wc not in _CHECKERS:
                 continue
-            fn, _ = _CHECKERS[rec["clause"]]
+            fn, _ = _CHECKERS[wc]
             try:
                 msg = fn(w)
             except Exception as e:
